@@ -604,7 +604,7 @@ def run(ctx):
     from .c08 import _take as _take_i
     r_i = Rule("C14", "C14.R9", "implicitly called element methods leave no state behind", floor=1,
                necessary="a repr / hash that caches a partial path makes the XForm depend on the logging configuration")
-    _take_i(r_i, _c02i.run(ctx), "C02.R3", lambda c: c.startswith("implicit methods:"))
+    _take_i(r_i, ctx.other(_c02i), "C02.R3", lambda c: c.startswith("implicit methods:"))
     rules.append(r_i)
     return rules
 
